@@ -230,6 +230,16 @@ fn check_raw(ctx: &mut Ctx, lit: &str) {
             }
             Err(e) => ctx.fail("dom-rawnumber-rejects", format!("{:?}: {}", doc, e)),
         }
+        // raw-number mode together with the lossy option, chosen in either order
+        for (name, r) in [
+            ("use_rawnumber().utf8_lossy()", sonic_rs::Deserializer::from_slice(doc.as_bytes()).use_rawnumber().utf8_lossy().deserialize::<Value>()),
+            ("utf8_lossy().use_rawnumber()", sonic_rs::Deserializer::from_slice(doc.as_bytes()).utf8_lossy().use_rawnumber().deserialize::<Value>()),
+        ] {
+            match r.map(|v| sonic_rs::to_string(&v).unwrap_or_default()) {
+                Ok(s) if s == doc => {}
+                other => ctx.fail(&format!("dom-rawnumber-not-verbatim:{}", name), format!("{:?} -> {:?}", doc, other.map_err(|e| e.to_string()))),
+            }
+        }
         // an OWNED raw-number value (to_value of a RawNumber, to_value of a raw-number DOM) keeps
         // the literal through clone, copy-on-write of a cloned container, and re-serialisation
         if let Ok(rn) = sonic_rs::from_str::<RawNumber>(lit) {
